@@ -9,12 +9,14 @@ import (
 	"fmt"
 	"io"
 	"os"
+	"os/signal"
 	"path/filepath"
 	"regexp"
 	"sort"
 	"strconv"
 	"strings"
 	"sync"
+	"syscall"
 	"time"
 
 	sp "github.com/scipipe/scipipe"
@@ -28,6 +30,18 @@ func main() {
 	if len(os.Args) < 3 {
 		fmt.Fprintln(os.Stderr, "usage: wfrun run|fmt|tempdir|auditrt|taskapi <file>")
 		os.Exit(64)
+	}
+	if v := os.Getenv("VERIF_FSIZE"); v != "" {
+		// a file size limit (quota-like fault): writes beyond it fail with EFBIG - the signal that comes with it is
+		// ignored, as a long-running service would have it
+		var n uint64
+		fmt.Sscanf(v, "%d", &n)
+		signal.Ignore(syscall.SIGXFSZ)
+		var rl syscall.Rlimit
+		if syscall.Getrlimit(syscall.RLIMIT_FSIZE, &rl) == nil && n > 0 {
+			rl.Cur = n
+			syscall.Setrlimit(syscall.RLIMIT_FSIZE, &rl)
+		}
 	}
 	switch os.Args[1] {
 	case "run":
